@@ -65,3 +65,23 @@ Definition wf_counts (pf : plotfile) : Prop :=
 Definition wf_rows (pf : plotfile) : Prop :=
   Forall (fun pl => Forall (fun r => blen r = pf_nfields pf) (pl_mins pl) /\
                     Forall (fun r => blen r = pf_nfields pf) (pl_maxs pl)) (pf_levels pf).
+
+(* ---- the pure operation, and sequences of it ---- *)
+Definition col_op : Type := (list bytes * option Z)%type.
+
+(* the pure operation on plotfiles: defined when the level limit is admissible
+   and at least one requested field exists *)
+Definition spec_step (o : col_op) (pf : plotfile) : option plotfile :=
+  match eff_limit (g_max_level (pf_g pf)) (snd o) with
+  | Some lim =>
+      if (0 <=? lim) && negb (length (fst (resolve_vars (field_keys (g_names (pf_g pf)) []) (fst o))) =? 0)%nat
+      then Some (colander_spec (fst o) lim pf) else None
+  | None => None
+  end.
+
+Fixpoint spec_run (ops : list col_op) (pf : plotfile) : option plotfile :=
+  match ops with
+  | [] => Some pf
+  | o :: ops' => match spec_step o pf with Some pf' => spec_run ops' pf' | None => None end
+  end.
+
